@@ -1,5 +1,7 @@
 package absnfs
 
+import "syscall"
+
 // C03 — CREATE never destroys or silently reuses an existing file.
 
 func init() {
@@ -31,8 +33,14 @@ func vpCreateArgs(dir uint64, name string, how uint32, s *vpSattr, verf []byte) 
 func VPH_C03_create_existing() {
 	fs := vpNewFS()
 	fs.addDir("/d")
-	kind := vpChoose("existing", 0, 3)
+	kind := vpChoose("existing", 0, 4)
 	switch kind {
+	case 4:
+		// an empty regular file, made a moment ago or long ago (nothing about an existing file -
+		// its size, its age - makes a second CREATE "the same" create)
+		n := fs.addFileData("/d/x", []byte{})
+		n.mtime = []int64{1_600_000_000, 1_700_000_000, 1_700_000_001}[vpChoose("empty-file-mtime", 0, 2)] // old, a second ago, now
+		vpReach("empty-file")
 	case 0:
 		fs.addAbsent("/d/x")
 		vpReach("absent")
@@ -69,9 +77,19 @@ func VPH_C03_create_existing() {
 		// a mode the server accepts (validateMode), so that the request is not refused for its mode
 		s.mode &= 07777
 	}
+	// the backend may fail one open with a transient error (EINTR, EAGAIN) or a hard one (EIO):
+	// whatever the server then does, it does not turn a create of an existing name into a success
+	interrupted := false
+	if kind != 0 && vpBool("one-open-fails") {
+		interrupted = true
+		env.fs.failOp, env.fs.failOnce = "OpenFile", true
+		env.fs.failErr = vpErr("open", "/d/x", []syscall.Errno{syscall.EINTR, syscall.EAGAIN, syscall.EIO}[vpChoose("open-errno", 0, 2)])
+		vpReach("one-open-fails")
+	}
 	env.fs.log = nil
 	before := env.fs.snapshot()
 	reply := env.call(NFSPROC3_CREATE, vpCreateArgs(hd, "x", how, s, verf))
+	env.fs.failOp = ""
 	vpAssert(reply != nil, "reply")
 	rd := &vpRd{b: vpReplyBytes(reply)}
 	status := rd.u32()
@@ -79,6 +97,16 @@ func VPH_C03_create_existing() {
 	after := env.fs.snapshot()
 	exists := kind != 0
 	setsSize := how != vpExclusive && s.setSize
+	if interrupted {
+		if how != vpUnchecked {
+			vpAssert(status != NFS_OK, "guarded-or-exclusive-existing-fails-even-after-a-failed-open")
+			vpAssert(after == before, "guarded-or-exclusive-existing-untouched-even-after-a-failed-open")
+		}
+		if kind == 1 && !setsSize {
+			vpAssert(string(fs.nodes["/d/x"].data) == "hello", "existing-data-kept-even-after-a-failed-open")
+		}
+		return
+	}
 
 	if !exists {
 		// creation of a fresh name works in every mode
@@ -98,6 +126,9 @@ func VPH_C03_create_existing() {
 		vpAssert(after == before, "exclusive-existing-untouched")
 	}
 	vpKnownClear()
+	if kind == 4 {
+		return
+	}
 	if kind == 1 && !setsSize {
 		// an existing regular file keeps its data unless the request sets size
 		vpKnown("K-C03-create-truncates", true)
